@@ -59,7 +59,14 @@ func c04gRun(t *testing.T, contact bool, nWriters int, sameAccount bool, ops []c
 			return res
 		}
 		writers = append(writers, b)
-		nWriters = 2
+		if sameAccount {
+			// a second device of A writes in the one-to-one group too
+			a2 := vNewReplica(t, "A2", a)
+			reps = append(reps, a2)
+			writers = append(writers, a2)
+			res.labels["g/contact-group-second-device-writes"] = true
+		}
+		nWriters = len(writers)
 	} else {
 		var err error
 		g, gsk, err = NewGroupMultiMember()
@@ -156,6 +163,21 @@ func c04gRun(t *testing.T, contact bool, nWriters int, sameAccount bool, ops []c
 		}
 		return strings.Join(keep, "\n")
 	}
+	// what is relative to the member (alias keys: own sent / the other side's) is the same on all devices of one account
+	aliasOf := func(gc *GroupContext) string {
+		for _, l := range strings.Split(vDumpGroupState(gc), "\n") {
+			if strings.HasPrefix(l, "alias ") {
+				return l
+			}
+		}
+		return ""
+	}
+	if contact && len(gcs) == 3 {
+		if a1, a2 := aliasOf(gcs[0]), aliasOf(gcs[2]); a1 != a2 {
+			res.fail("replicas-diverge/devices-of-one-account", "two devices of one account holding the same %d entries of their one-to-one group report different alias key state: %q vs %q", n, a1, a2)
+			return res
+		}
+	}
 	base := common(gcs[0])
 	for i := 1; i < len(gcs); i++ {
 		if d := common(gcs[i]); d != base {
@@ -197,6 +219,13 @@ func c04gRun(t *testing.T, contact bool, nWriters int, sameAccount bool, ops []c
 	if d1 != d2 {
 		res.fail("replicas-diverge/batch-vs-single", "replica fed in one batch and replica fed entry by entry (%d entries) differ:\n%s", n, c04Diff(d1, d2))
 		return res
+	}
+	if contact {
+		// the fresh replicas are devices of A's account
+		if a1, ar := aliasOf(gcs[0]), aliasOf(r1); a1 != ar {
+			res.fail("replicas-diverge/devices-of-one-account", "a further device of the account holding the same %d entries of the one-to-one group reports another alias key state than the writing device: %q vs %q", n, ar, a1)
+			return res
+		}
 	}
 	if d1 != base {
 		res.fail("replicas-diverge/replica-vs-writer", "fresh replica holding the writers' %d entries differs from them:\n%s", n, c04Diff(base, d1))
